@@ -19,6 +19,7 @@ def model_for(ob, timeout_ms=10000):
             ground = [h for h in hyps if not solve._has_quant(h)] + [ng]
             quant = [h for h in hyps if solve._has_quant(h)]
             insts = solve.instantiate(quant, ground)
+            insts += solve.ematch(quant, ground + insts)
             s = z3.Solver()
             s.set("timeout", timeout_ms)
             for f in ground + insts + (quant if which == "full" else []):
